@@ -73,6 +73,15 @@ func c17Pinned(name string) c17Case {
 			{"array_to_append": map[string]any{"by_name": "M.ms"}},
 			{"map_to_index": map[string]any{"by_name": "M.ms"}},
 		}
+	case "merge-into-3-segments":
+		// a path of exactly three segments is built by successive appends (cap 4): the shape on which an
+		// aliasing Path.Append shows. Must pass.
+		s.AddObject(ast.NewObject("p", "I", ast.NewStruct(ast.NewStructField("alpha", ast.String()), ast.NewStructField("beta", ast.Bool()), ast.NewStructField("gamma", ast.NewScalar(ast.KindInt64)))))
+		s3 := ast.NewStruct(ast.NewStructField("s3", ast.NewRef("p", "I")))
+		n2 := ast.NewStruct(ast.NewStructField("n2", s3))
+		s.AddObject(ast.NewObject("p", "D", ast.NewStruct(ast.NewStructField("n1", n2), ast.NewStructField("own", ast.String()))))
+		f.Builders = []map[string]any{{"merge_into": map[string]any{"destination": "D", "source": "I", "under_path": "n1.n2.s3"}}}
+		f.Options = []map[string]any{{"struct_fields_as_options": map[string]any{"by_name": "D.n1"}}}
 	case "compose-then-initialize":
 		// the composed builder starts from a by-value copy of the source builder's Constructor: both
 		// slices share one backing array with spare capacity (3 constants appended one by one: cap 4)
